@@ -174,7 +174,11 @@ func c17Worker(args []string) int {
 		const K = 6
 		var shared []*c17shared
 		for k := 0; len(shared) < K; k++ {
-			gc := genCase(seed, "c17.shared", round*64+k, gen.KindIndex([]string{"Select", "Select", "Explain", "CreateContinuousQuery"}[k%4]), -1, gen.Opts{SubqDepth: 2, SubqProb: 0.3, MaxDepth: 2}, "spaced")
+			kind := gen.KindIndex([]string{"Select", "Select", "Explain", "CreateContinuousQuery"}[k%4])
+			if k == 5 {
+				kind = -1 // any statement kind (SHOW, DROP, ... with conditions and sources)
+			}
+			gc := genCase(seed, "c17.shared", round*64+k, kind, -1, gen.Opts{SubqDepth: 2, SubqProb: 0.3, MaxDepth: 2}, "spaced")
 			st, err := influxql.ParseStatement(gc.Text)
 			if err != nil {
 				continue
